@@ -107,6 +107,16 @@ Theorem c15_optimal_mean_is_maximiser_partial :
 Proof. exact elbo_mean_maximal. Qed.
 Print Assumptions c15_optimal_mean_is_maximiser_partial.
 
+(* maximum over q(u), COVARIANCE direction, diagonal (commuting) case: the S-dependent part of the
+   ELBO, -1/2 tr(P S) + 1/2 log det S, with P = diag(p) the posterior precision and S = diag(s), is maximal
+   at S = P^-1 (every size).  PARTIAL: general (non-commuting) P, S need log-det concavity. *)
+Theorem c15_optimal_cov_diagonal_partial :
+  forall n (p s : nat -> R), (forall i, (i < n)%nat -> (0 < p i)%R) -> (forall i, (i < n)%nat -> (0 < s i)%R) ->
+    (@sum RF n (fun i => - / 2 * (p i * s i) + / 2 * ln (s i))
+     <= @sum RF n (fun i => - / 2 * (p i * / p i) + / 2 * ln (/ p i)))%R.
+Proof. exact elbo_cov_part_diag_max. Qed.
+Print Assumptions c15_optimal_cov_diagonal_partial.
+
 (* KL(q(u)||p(u)) >= 0 for a whitened mean-field q(u) (every size); full covariance needs
    log det / trace inequalities that are out of reach: partial *)
 Theorem c15_kl_nonneg_meanfield_partial :
